@@ -131,11 +131,10 @@ Fixpoint instr_size (i : instr) : nat :=
   | _ => 1%nat
   end.
 
-(* number of IError nodes (C23) *)
+(* number of IError nodes (C23); note [IFail _ FError] is the legitimate `(fail :error:)` *)
 Fixpoint error_nodes (i : instr) : nat :=
   match i with
   | IError => 1%nat
-  | IFail _ FError => 1%nat
   | ISeq a b | IPar a b | IXor a b => (error_nodes a + error_nodes b)%nat
   | IMatch _ _ _ b | IMisMatch _ _ _ b | INew _ _ b _ => error_nodes b
   | IFoldScalar _ _ _ b l _ | IFoldStream _ _ _ b l _ | IFoldStreamMap _ _ _ b l _ =>
